@@ -59,6 +59,7 @@ func runC12(c *Config, r *Report) {
 	c12R19(ic, r)
 	c12R20(ic, r)
 	c12R21(ic, r)
+	c12R22(ic, r)
 	{
 		// R12.14 = R06.15: an ill-typed program that makes a compile pass fault is rejected with
 		// an error, not with a panic of the host
@@ -1349,4 +1350,56 @@ func c12R21(ic *IC, r *Report) {
 	if n < 2 {
 		r.Errorf("R12.21: %d arity tests found in the returnStmt case (too many, not enough expected)", n)
 	}
+}
+
+func init() {
+	ruleText["R12.22"] = "the case expressions of an expression switch are type-checked against the tag: the post-order case of cfg for switch statements contains, for the statements with a tag, a loop over the clauses in which a type relation between a case expression and the tag (assignableTo, equals, comparison) decides an error - a case whose type cannot be compared with the tag is rejected, not compiled into a comparison that is always false (or panics in reflect)"
+}
+
+// c12R22: found through the round-6 report on C12 (2.1: no check at all of case expressions).
+// a := 1; switch a { case "x": } was accepted.
+func c12R22(ic *IC, r *Report) {
+	info := ic.Info
+	cfgFn := ic.fn(r, "Interpreter.cfg")
+	if cfgFn == nil {
+		return
+	}
+	var cc *ast.CaseClause
+	ast.Inspect(cfgFn.Decl.Body, func(q ast.Node) bool {
+		c, ok := q.(*ast.CaseClause)
+		if !ok {
+			return true
+		}
+		for _, l := range kindLabels(ic, c) {
+			if l == "switchStmt" && len(callsIn(info, c, true, "interp.nextClause")) > 0 {
+				cc = c
+			}
+		}
+		return true
+	})
+	if cc == nil {
+		r.Errorf("R12.22: the post-order case of cfg for switch statements (the one chaining the clauses) was not found")
+		return
+	}
+	found := ""
+	ast.Inspect(cc, func(q ast.Node) bool {
+		ifs, ok := q.(*ast.IfStmt)
+		if !ok {
+			return true
+		}
+		rel := len(callsIn(info, ifs.Cond, true, "interp.itype.assignableTo", "interp.itype.equals", "interp.itype.comparable", "interp.typecheck.comparison", "interp.typecheck.assignExpr")) > 0
+		if !rel || len(callsIn(info, ifs.Body, true, "interp.node.cfgErrorf")) == 0 {
+			return true
+		}
+		// inside a loop (over the clauses or their expressions)
+		for _, p := range enclosingPath(cc, ifs) {
+			switch p.(type) {
+			case *ast.RangeStmt, *ast.ForStmt:
+				found = ic.pos(ifs.Pos())
+			}
+		}
+		return true
+	})
+	r.Check(found != "", "R12.22", "cfg/case:switchStmt/case-expressions-checked-against-the-tag", ic.pos(cc.Pos()), "a type relation between the case expressions and the tag decides an error ("+found+")",
+		"the switch case of cfg chains the clauses without ever relating the type of a case expression to the type of the tag: a := 1; switch a { case \"x\": } is accepted (compiled Go: cannot convert \"x\" to type int) and compiled into a comparison that can never hold or that panics in reflect")
 }
